@@ -71,86 +71,7 @@ func runC01(p *Program, r *Result) {
 
 	// ---- R01.9
 	r.Rule("R01.9", "every stanza of every recipient is written to the header, in order", 1)
-	{
-		etb := p.TB(enc)
-		stores := p.fieldStores(pkgFormat+".Header", "Recipients")
-		var in []fieldStore
-		for _, fs := range stores {
-			if fs.Fn == enc {
-				in = append(in, fs)
-			}
-		}
-		ok := len(in) == 1
-		detail := "expected one append to hdr.Recipients in Encrypt"
-		if ok {
-			got := short(etb.Term(in[0].Store.Val).String())
-			want := specRecipe(r, "Encrypt.Recipients.append")
-			if got != want {
-				// the same list accumulated in a local first and assigned to the field afterwards
-				ge, ok1 := accumulatedElement(etb.Term(in[0].Store.Val))
-				if i := strings.Index(want, ", List("); !ok1 || i < 0 || "List("+short(ge)+")" != strings.TrimSuffix(want[i+2:], ")") {
-					ok, detail = false, "appended value is "+got+"\n   want "+want
-				}
-			}
-		}
-		if ok {
-			// where the element is appended: the store itself, or (list accumulated in a local and
-			// assigned afterwards) the one append of header stanzas in Encrypt
-			site := in[0].Store.Block()
-			if c, isCall := in[0].Store.Val.(*ssa.Call); !isCall || !isBuiltin(&c.Call, "append") {
-				var apps []*ssa.Call
-				for _, ci := range callsIn(enc) {
-					if cc, ok := ci.(*ssa.Call); ok && isBuiltin(&cc.Call, "append") && typeString(cc.Type()) == "[]*"+pkgFormat+".Stanza" {
-						apps = append(apps, cc)
-					}
-				}
-				if len(apps) == 1 {
-					site = apps[0].Block()
-				}
-			}
-			outer := loopOver(enc, func(v ssa.Value) bool { return v == enc.Params[1] })
-			if len(outer) > 1 {
-				// several loops over the recipients (an extra pre-check): the one around the append
-				var w []*RangeLoop
-				for _, l := range outer {
-					if l.inLoop(site) {
-						w = append(w, l)
-					}
-				}
-				outer = w
-			}
-			// the stanza loop: the range loop around the append other than the recipient loop
-			// (what it ranges over is part of the appended value, compared with the table above)
-			var inner []*RangeLoop
-			for _, l := range rangeLoops(enc) {
-				if len(outer) == 1 && l.Header != outer[0].Header && l.inLoop(site) {
-					inner = append(inner, l)
-				}
-			}
-			if len(outer) != 1 || len(inner) != 1 {
-				ok, detail = false, "recipient loop / stanza loop not recognised as full-range loops"
-			} else if !inner[0].inLoop(site) || !outer[0].inLoop(inner[0].Header) {
-				ok, detail = false, "the append is not inside the stanza loop inside the recipient loop"
-			} else if len(p.loopEarlyExits(inner[0])) != 0 {
-				ok, detail = false, "the stanza loop can be left early"
-			} else {
-				// the outer loop may be left early only by error returns
-				if len(p.loopEarlyExits(outer[0])) != 0 {
-					ok, detail = false, "the recipient loop can be left early (break)"
-				}
-				for _, ret := range returnsOf(enc) {
-					if outer[0].inLoop(ret.Block()) && (len(ret.Results) != 2 || isNilConst(ret.Results[1])) {
-						ok, detail = false, "the recipient loop returns without an error"
-					}
-				}
-			}
-		}
-		pos := ""
-		if len(in) > 0 {
-			pos = r.pos(in[0].Store)
-		}
-		r.Check(ok, enc.String(), "store:Recipients", pos, "hdr.Recipients = append(hdr.Recipients, stanzas[j]) for all j, for all recipients", detail)
-	}
+	checkHeaderStanzas(p, r, enc)
 
 	// ---- R01.2
 	r.Rule("R01.2", "no identity is consulted after the first one that opened the file", 1)
@@ -412,4 +333,87 @@ func accumulatedElement(t *Term) (string, bool) {
 		return "", false
 	}
 	return t.Args[1].Args[0].String(), true
+}
+
+// checkHeaderStanzas is rule R01.9 (shared with C05: the header lists exactly the stanzas the
+// recipients returned, in order).
+func checkHeaderStanzas(p *Program, r *Result, enc *ssa.Function) {
+	etb := p.TB(enc)
+	stores := p.fieldStores(pkgFormat+".Header", "Recipients")
+	var in []fieldStore
+	for _, fs := range stores {
+		if fs.Fn == enc {
+			in = append(in, fs)
+		}
+	}
+	ok := len(in) == 1
+	detail := "expected one append to hdr.Recipients in Encrypt"
+	if ok {
+		got := short(etb.Term(in[0].Store.Val).String())
+		want := specRecipe(r, "Encrypt.Recipients.append")
+		if got != want {
+			// the same list accumulated in a local first and assigned to the field afterwards
+			ge, ok1 := accumulatedElement(etb.Term(in[0].Store.Val))
+			if i := strings.Index(want, ", List("); !ok1 || i < 0 || "List("+short(ge)+")" != strings.TrimSuffix(want[i+2:], ")") {
+				ok, detail = false, "appended value is "+got+"\n   want "+want
+			}
+		}
+	}
+	if ok {
+		// where the element is appended: the store itself, or (list accumulated in a local and
+		// assigned afterwards) the one append of header stanzas in Encrypt
+		site := in[0].Store.Block()
+		if c, isCall := in[0].Store.Val.(*ssa.Call); !isCall || !isBuiltin(&c.Call, "append") {
+			var apps []*ssa.Call
+			for _, ci := range callsIn(enc) {
+				if cc, ok := ci.(*ssa.Call); ok && isBuiltin(&cc.Call, "append") && typeString(cc.Type()) == "[]*"+pkgFormat+".Stanza" {
+					apps = append(apps, cc)
+				}
+			}
+			if len(apps) == 1 {
+				site = apps[0].Block()
+			}
+		}
+		outer := loopOver(enc, func(v ssa.Value) bool { return v == enc.Params[1] })
+		if len(outer) > 1 {
+			// several loops over the recipients (an extra pre-check): the one around the append
+			var w []*RangeLoop
+			for _, l := range outer {
+				if l.inLoop(site) {
+					w = append(w, l)
+				}
+			}
+			outer = w
+		}
+		// the stanza loop: the range loop around the append other than the recipient loop
+		// (what it ranges over is part of the appended value, compared with the table above)
+		var inner []*RangeLoop
+		for _, l := range rangeLoops(enc) {
+			if len(outer) == 1 && l.Header != outer[0].Header && l.inLoop(site) {
+				inner = append(inner, l)
+			}
+		}
+		if len(outer) != 1 || len(inner) != 1 {
+			ok, detail = false, "recipient loop / stanza loop not recognised as full-range loops"
+		} else if !inner[0].inLoop(site) || !outer[0].inLoop(inner[0].Header) {
+			ok, detail = false, "the append is not inside the stanza loop inside the recipient loop"
+		} else if len(p.loopEarlyExits(inner[0])) != 0 {
+			ok, detail = false, "the stanza loop can be left early"
+		} else {
+			// the outer loop may be left early only by error returns
+			if len(p.loopEarlyExits(outer[0])) != 0 {
+				ok, detail = false, "the recipient loop can be left early (break)"
+			}
+			for _, ret := range returnsOf(enc) {
+				if outer[0].inLoop(ret.Block()) && (len(ret.Results) != 2 || isNilConst(ret.Results[1])) {
+					ok, detail = false, "the recipient loop returns without an error"
+				}
+			}
+		}
+	}
+	pos := ""
+	if len(in) > 0 {
+		pos = r.pos(in[0].Store)
+	}
+	r.Check(ok, enc.String(), "store:Recipients", pos, "hdr.Recipients = append(hdr.Recipients, stanzas[j]) for all j, for all recipients", detail)
 }
